@@ -465,7 +465,7 @@ def diff_view(v, impl_files, impl_dirs):
             else:
                 bad.append((p, "content differs"))
     for p in sorted(exp_dirs ^ got_dirs):
-        if under(p, v.free):
+        if under(p, v.free) or any(f[:len(p)] == p for f in v.free):
             continue
         bad.append((p, "directory missing from the output" if p in exp_dirs else "directory only in the output"))
     return bad
@@ -485,7 +485,9 @@ def oracle(case, impl):
     c = parse_case(case)
     if c is None:
         return None if impl == "bad-op" else "malformed case line not rejected by the driver: " + impl[:100]
-    if impl.startswith(("panic", "CRASH", "harness-error", "reload-error", "bad-op")):
+    if impl.startswith("harness-error"):
+        return None        # the driver could not build the tree (ill-formed case line): not an output of Copy
+    if impl.startswith(("panic", "CRASH", "reload-error", "bad-op")):
         return "copy did not end with a manifest or an error: " + impl[:200]
     if unsupported_config(c):
         return None if impl == "skip-config" else "configuration outside the quantifier was run: " + impl[:100]
@@ -499,16 +501,22 @@ def oracle(case, impl):
     _, put, listing = impl.split(" ")
     files, dirs = parse_listing(listing)
     sh = secret_hashes(c)
+    problems = []          # (output path, what is wrong)
     for p, (size, md5) in sorted(files.items()):
         if md5 in sh:
-            return "secret mount %r appears in the output as %r" % ("/" + "/".join(sh[md5]), "/" + "/".join(p))
-    if v.cycle:
-        return "a link cycle did not make the copy fail"
-    if v.bad:
-        return "copy succeeded although it must fail: " + v.bad[0][1]
-    bad = diff_view(v, files, dirs)
-    if bad:
-        return "saved output differs from the output directory: " + "; ".join("/%s: %s" % ("/".join(p), w) for p, w in bad[:4])
+            problems.append((p, "secret mount %r appears in the output as %r" % ("/" + "/".join(sh[md5]), "/" + "/".join(p))))
+    for d in v.cycles:
+        problems.append((d, "a link cycle at %r did not make the copy fail" % ("/" + "/".join(d),)))
+    for d, msg in v.bad:
+        problems.append((d, "copy succeeded although it must fail: " + msg))
+    if not v.cycle and not v.bad:
+        for p, w in diff_view(v, files, dirs):
+            problems.append((p, "saved output differs from the output directory: /%s: %s" % ("/".join(p), w)))
+    if problems:
+        # lead with what no irregular link (known findings F17a/F17b) can explain
+        irr = [d for d, _ in v.irregular]
+        problems.sort(key=lambda pw: under(pw[0], irr))
+        return "; ".join(w for _, w in problems[:4])
     if not v.free and int(put) != v.host_bytes:
         return "bytes written to Keep (%s) differ from the bytes of the copied host files (%d): mounted content must be included by reference" % (put, v.host_bytes)
     return None
@@ -534,10 +542,10 @@ def compare(case, impl, model):
 
 
 def finding_of(case, impl, why, model=None):
-    """F17a / F17b only where the implementation behaves as the model of the unfixed code predicts and every
+    """F17a / F17b only where every
     divergence from the container's view lies at or below a followed link whose target is an absolute path that
     is not clean (a) or a path through a symlinked directory (b)."""
-    if not why or model is None or not compare(case, impl, model):
+    if not why:
         return None
     v = view_of(case)
     if v is None or not v.irregular:
@@ -896,12 +904,13 @@ class Gen:
             if n:
                 self.add(d + (n,), "p")
 
-    def chain(self):
+    def chain(self, n=None):
         """a chain of links of a chosen length ending at a file, or a ring"""
         r = self.rng
         clean = self.profile.get("clean")
-        n = r.choice([2, 3, 9, 10]) if clean else r.choice([2, 3, 9, 10, 11, 12, 13])
-        ring = r.random() < 0.2 and not clean
+        ring = n is None and r.random() < 0.2 and not clean
+        if n is None:
+            n = r.choice([2, 3, 9, 10]) if clean else r.choice([2, 3, 9, 10, 11, 12, 13])
         d = ()
         names = ["ch%d" % i for i in range(n)]
         end = "chend"
@@ -911,10 +920,11 @@ class Gen:
             t = nxt if r.random() < 0.7 else self.ctr(d + (nxt,))
             self.add(d + (nm,), "l", t)
 
-    def nest(self):
+    def nest(self, n=None):
         """directory links nested inside each other: every level costs one follow on the same descent path"""
         r = self.rng
-        n = r.choice([2, 5, 10]) if self.profile.get("clean") else r.choice([2, 5, 10, 11, 12])
+        if n is None:
+            n = r.choice([2, 5, 10]) if self.profile.get("clean") else r.choice([2, 5, 10, 11, 12])
         for i in range(n):
             self.add(("n%d" % i,), "d")
             self.add(("n%d" % i, "v"), "f", (self.fresh_seed(), 2))
@@ -961,9 +971,23 @@ def gen_case(rng, profile):
     return g.line()
 
 
+def boundary_cases(rng):
+    """link chains and nested directory links right at the follow limit (10, 11, 12 follows), in every run"""
+    out = []
+    for n in (10, 11, 12):
+        for kind in ("chain", "nest"):
+            g = Gen(rng, {"clean": True, "irregular": 0.0, "special": 0.0})
+            g.mounts.append((g.ctr_out, "tmp", "", None, ""))
+            getattr(g, kind)(n)
+            g.extras()
+            g.fill_links()
+            out.append(g.line())
+    return out
+
+
 def generate(rng, tier):
     n = 420 if tier == "quick" else 12000
-    cases = []
+    cases = boundary_cases(rng)
     for i in range(n):
         clean = rng.random() < 0.6
         prof = {"irregular": 0.0 if clean else 0.12, "special": 0.0 if clean else 0.06, "clean": clean}
@@ -1039,7 +1063,8 @@ def neighbours(case, rng):
         e = list(ents)
         k = rng.randrange(5)
         if k == 0 and e:
-            del e[rng.randrange(len(e))]
+            victim = e[rng.randrange(len(e))].split(":")[0]
+            e = [x for x in e if not (x.split(":")[0] == victim or x.split(":")[0].startswith(victim + "2f"))]
         elif k == 1:
             links = [i for i, x in enumerate(e) if ":l:" in x]
             if links:
